@@ -115,6 +115,48 @@ def rechunk_sweep(tier, seed):
                         fails.append(rtc.Failure("rechunk", {"old": (old,), "new": (new,)}, "ensures", "C23-rechunk-exact", msg))
             if time.time() - t0 > budget:
                 break
+        # target given as dict / tuple / list with None, -1 and omitted axes (None / omitted = keep the current chunks);
+        # the same spec object reused on differently chunked arrays must not be modified by the call
+        import copy as _copy
+        x2 = np.arange(48).reshape(6, 8)
+        sources = [((6,), (8,)), ((3, 3), (4, 4)), ((2, 4), (2, 2, 2, 2)), ((1,) * 6, (5, 3))]
+        specs = [{0: 2}, {1: 4}, {0: 3, 1: None}, {0: None, 1: (3, 5)}, {-1: 2}, {-2: (1, 5), 1: -1}, {0: -1}, {},
+                 (None, 4), (3, None), [None, 4], [2, None], [None, None], (None, -1), [(2, 4), None], (2, 4), [3, 8]]
+        for spec in specs:
+            keep = _copy.deepcopy(spec)
+            for src in sources:
+                cases += 1
+                d = da.from_array(x2, chunks=src)
+                items = spec.items() if isinstance(spec, dict) else enumerate(spec)
+                per_axis = {(k + 2) % 2: v for k, v in items}
+                want = []
+                for ax in (0, 1):
+                    v = per_axis.get(ax)
+                    if v is None:
+                        want.append(src[ax])
+                    elif v == -1:
+                        want.append((x2.shape[ax],))
+                    elif isinstance(v, tuple):
+                        want.append(v)
+                    else:
+                        q, r_ = divmod(x2.shape[ax], v)
+                        want.append((v,) * q + ((r_,) if r_ else ()))
+                try:
+                    r = d.rechunk(spec)
+                    msg = None
+                    if r.chunks != tuple(want):
+                        msg = f"rechunk({keep!r}) of chunks {src} gives {r.chunks}, requested {tuple(want)}"
+                    elif spec != keep:
+                        msg = f"rechunk modified the caller's chunk specification: {keep!r} became {spec!r}"
+                    elif not np.array_equal(r.compute(), x2):
+                        msg = "values changed"
+                except Exception as e:  # noqa
+                    msg = f"{type(e).__name__}: {e}"
+                if msg:
+                    fails.append(rtc.Failure("rechunk", {"shape": (6, 8), "old": src, "new": keep}, "ensures", "C23-rechunk-exact", msg))
+                    break
+            if len(fails) >= 3:
+                break
         # 2-D with settings that force multi-stage plans
         pairs = [((410, 10), (5, 10), (41, 1)), ((100, 100), (1, 100), (100, 1)), ((60, 60), (2, 60), (60, 3)), ((20, 20), (20, 1), (1, 20)), ((30, 30), (3, 5), (7, 11))]
         for _ in range(20 if tier == "quick" else 200):
@@ -146,6 +188,6 @@ def rechunk_sweep(tier, seed):
             if time.time() - t0 > budget or len(fails) >= 5:
                 break
     return {"function": "dask/array/rechunk.py:rechunk/plan_rechunk (real code, NumPy values; bounded only)", "bounded": True,
-            "bound": {"1-D": "all pairs of chunkings of length <= 5 (quick) / 6, zero-size source chunks included", "2-D": f"{len(pairs)} (shape, old, new) x 3 plan settings", "time_budget_s": budget},
+            "bound": {"1-D": "all pairs of chunkings of length <= 5 (quick) / 6, zero-size source chunks included", "specs": "17 dict/tuple/list targets with None, -1, negative axes and omitted axes x 4 source chunkings, spec object reused", "2-D": f"{len(pairs)} (shape, old, new) x 3 plan settings", "time_budget_s": budget},
             "cases": cases, "distinct_nontrivial": cases, "failures_found": len(fails), "wall_s": round(time.time() - t0, 2),
             "samples": [{"native_case": {"shape": [410, 10], "old": [5, 10], "new": [41, 1]}}], "failures": fails[:5]}
